@@ -20,6 +20,14 @@ func init() {
 		Rule: "class matrix: {Dense.Concat, tensor.Concat, Dense.Stack, tensor.Stack, Hstack, Vstack, Dense.Repeat, tensor.Repeat, tensor.RepeatReuse} x 1-4 operands x shapes of rank 1-4 (row/column vectors, unit axes) x every valid axis (plus invalid ones) x operand layouts {C,T,S,SS,MS} independently per operand x repeat counts {uniform, per-element, with zeros, wrong length} x element widths 1-16 bytes and strings. " +
 			"Oracle: NumPy's concatenate/stack/repeat on the operands' logical contents (only calls NumPy itself defines are judged by value; library extensions and documented restrictions are judged for the frame clauses only); result shape; every operand bit-identical afterwards with unchanged metadata; operands that do not fit must be refused with an error (no panic). distinct_nontrivial counts distinct (operation, operand count, axis, layouts, shapes, dtype) keys with at least one non-contiguous operand or more than one operand.",
 		Assume: []string{"Vstack of 1-D operands is a documented restriction (refusal accepted)"},
+		// the copies and block moves go through unsafe and reflect.SliceHeader: the thorough tier repeats the workload under
+		// AddressSanitizer (a report ends the child; the parent turns it into a process-fatal violation naming the open case)
+		Flavours: func(tier string) []string {
+			if tier == "thorough" {
+				return []string{"plain", "asan"}
+			}
+			return []string{"plain"}
+		},
 		Groups: c10Groups,
 	})
 }
